@@ -21,9 +21,11 @@ pub fn shrink(
     let mut cur = start;
     let mut msg = first_message;
     let mut execs = 0u64;
+    let t0 = std::time::Instant::now();
     'outer: loop {
         for cand in candidates(&cur) {
-            if execs >= budget { break 'outer; }
+            // bounded in executions and in wall time (a minimiser must never become the long pole)
+            if execs >= budget || t0.elapsed().as_secs() > 300 { break 'outer; }
             execs += 1;
             if let Some((id, m)) = fails(&cand) {
                 if id == check_id {
